@@ -157,6 +157,34 @@ func one(w *ev.W, v tbin.Value) {
 		}
 		w.Outcome("sread-ok:" + v.T.String())
 	}
+	// 4b. the same walk with one child passed over by Skip (first and last child):
+	// the remaining children must come out unchanged and exactly the encoding consumed
+	if nc := children(v); nc > 0 {
+		idxs := []int{0}
+		if nc > 1 {
+			idxs = append(idxs, nc-1)
+		}
+		for _, skip := range idxs {
+			want := without(v, skip).Key()
+			for _, ck := range chunk.All(len(ref), false, false)[:2] {
+				cr := ck.New(ref)
+				sr := binary.Default.Reader(cr)
+				sv, err := wirex.StreamReadSkipping(sr, v.T, skip)
+				sr.Close()
+				w.Count("stream_skip_runs", 1)
+				if err != nil {
+					w.Violation("stream-skip-error:"+v.T.String(), fmt.Sprintf("stream reader walk of %s skipping child %d (reads: %s) failed: %v", key, skip, ck.Name, err), rep)
+				} else if sv.Key() != want {
+					w.Violation("stream-skip-value:"+v.T.String(), fmt.Sprintf("stream reader walk of %s skipping child %d (reads: %s) = %s, expected %s", key, skip, ck.Name, sv.Key(), want), rep)
+				} else if cr.Pos != len(ref) {
+					w.Violation("stream-skip-length:"+v.T.String(), fmt.Sprintf("stream reader walk of %s skipping child %d (reads: %s) drew %d of %d bytes", key, skip, ck.Name, cr.Pos, len(ref)), rep)
+				} else {
+					continue
+				}
+				break
+			}
+		}
+	}
 	// 5. random-access decoder over a ReaderAt that serves short reads
 	dv2, err := binary.Default.Decode(shortReaderAt{ref}, wire.Type(v.T))
 	if err != nil {
@@ -164,6 +192,33 @@ func one(w *ev.W, v tbin.Value) {
 	} else if got, ferr := wirex.FromWire(dv2); ferr != nil || got.Key() != key {
 		w.Violation("decode-short-readat:"+v.T.String(), fmt.Sprintf("Decode(%s) over a ReaderAt = %s err=%v", key, got.Key(), ferr), rep)
 	}
+}
+
+// children counts the direct children of a composite value (map: entries).
+func children(v tbin.Value) int {
+	switch v.T {
+	case tbin.Struct:
+		return len(v.Fields)
+	case tbin.Map:
+		return len(v.Items) / 2
+	case tbin.List, tbin.Set:
+		return len(v.Items)
+	}
+	return 0
+}
+
+// without returns v without child i.
+func without(v tbin.Value, i int) tbin.Value {
+	out := v
+	switch v.T {
+	case tbin.Struct:
+		out.Fields = append(append([]tbin.Field{}, v.Fields[:i]...), v.Fields[i+1:]...)
+	case tbin.Map:
+		out.Items = append(append([]tbin.Value{}, v.Items[:2*i]...), v.Items[2*i+2:]...)
+	default:
+		out.Items = append(append([]tbin.Value{}, v.Items[:i]...), v.Items[i+1:]...)
+	}
+	return out
 }
 
 // shortReaderAt is a conforming io.ReaderAt (ReadAt fills p or returns an
